@@ -624,6 +624,14 @@ class TermInterp:
                 # distance (term vanishing identically when the two indices coincide) is zero
                 return TArr(a.shape, zero_locus(a), mask=True)
             raise Unsupported(f"comparison {src[:60]}")
+        if isinstance(a, (Poly, TArr)) or isinstance(b, (Poly, TArr)):
+            pa = a.term if isinstance(a, TArr) and a.shape == () else (a if isinstance(a, Poly) else (Poly.const(a) if isinstance(a, (int, Fr)) else None))
+            pb = b.term if isinstance(b, TArr) and b.shape == () else (b if isinstance(b, Poly) else (Poly.const(b) if isinstance(b, (int, Fr)) else None))
+            if pa is not None and pb is not None and isinstance(e.ops[0], (ast.Eq, ast.NotEq)):
+                if pa == pb:
+                    return isinstance(e.ops[0], ast.Eq)
+                if pa.is_const() and pb.is_const():
+                    return not isinstance(e.ops[0], ast.Eq)
         if isinstance(a, (int, Fr)) and isinstance(b, (int, Fr)):
             op = type(e.ops[0])
             return {ast.Lt: a < b, ast.LtE: a <= b, ast.Gt: a > b, ast.GtE: a >= b, ast.Eq: a == b, ast.NotEq: a != b}[op]
@@ -690,6 +698,10 @@ class TermInterp:
         is_np = isinstance(c.func, ast.Attribute) and isinstance(c.func.value, ast.Name) and c.func.value.id in ("np", "numpy")
         if is_np or fn in ("len", "abs", "float", "int"):
             return self.np_call(c, name)
+        if getattr(self, "call_hook", None) is not None:
+            r = self.call_hook(self, c, fn)
+            if r is not _MISSING:
+                return r
         if fn in ("ot.emd2", "emd2"):
             return self.emd2(c)
         if fn.endswith(".update_params") and len(c.args) == 2 and getattr(self, "on_update", None) is not None:
